@@ -131,7 +131,7 @@ def run(ctx):
         ctx.replay(paths2, replayer, nontrivial=nt)
         ctx.cov["exhaustive"] = True
         # request sequences on one file (history dependence: etag cache, keep-alive state)
-        sims = ctx.sim_paths("webstatic", "Gen_StaticRange", "Gen_StaticRange.cfg", num=ctx.pick(100, 1500), depth=7)
+        sims = ctx.sim_paths("webstatic", "Gen_StaticRange", "Gen_StaticRange.cfg", num=ctx.pick(100, 400), depth=7)
         ctx.replay(sims, replayer, label="s2c-sim")
         ctx._phase("mc+s2c", t0)
         t0 = time.time()
